@@ -232,6 +232,7 @@ type Analysis struct {
 	AllAcked  bool
 	Clean     bool
 	CleanUp   bool
+	CleanTaint bool
 	Attempts  []*attempt
 	TaintOK, UntaintOK int
 	TaintAttempted, UntaintAttempted map[string]bool
@@ -483,6 +484,20 @@ func analyse(gs *GroupScan, g *GroupCfg, rec *ScanRecord) *Analysis {
 			attachOK = false
 		}
 	}
+	// CleanTaint: enough for the taint-count rule (C06): the expected count follows from the view; faults in
+	// the reap phase (terminate / delete calls) do not change it, failed taint writes do.
+	taintPhaseOK := true
+	for _, c := range gs.Calls {
+		if (c.Op == OpGet || c.Op == OpPut) && (c.Err != "" || c.Fault != "") {
+			taintPhaseOK = false
+		}
+		if c.Op == OpSetDesired || c.Op == OpCreateFleet || c.Op == OpDescribeInst && c.Fault == FLatency {
+			if c.Err != "" {
+				taintPhaseOK = false
+			}
+		}
+	}
+	a.CleanTaint = !preFaulted && a.Kind != kListErr && !rec.Outcome.EndsLifetime() && taintPhaseOK
 	a.CleanUp = !preFaulted && a.Kind != kListErr && !rec.Outcome.EndsLifetime() && incAcked && attachOK && !neverReadyInScan(gs)
 	a.StateHash = a.hash(gs, g)
 	return a
